@@ -9,8 +9,13 @@ Streams (every case derives from common.case_rng(PID + "/<stream>", seed, shard,
             call inside the run is recorded and replayed as above; the selection is replayed by the Lean solver
             model S (DE.step1 / DE.step2) from the recorded trials; monitor: a member changes only when its trial
             is strictly lower, and then becomes exactly that trial with that energy.
-  nm      - real fmin vs the in-repo reference _scipy060optimize.fmin; both vs the Lean transcriptions
-            (Model/RefFmin.lean: refFmin and the staged mystic machine with its Step/Terminated loop).
+  nm      - real fmin AND the solver class (SetInitialPoints / SetEvaluationLimits / Solve(termination=CRT)) vs the in-repo
+            reference _scipy060optimize.fmin, evaluation for evaluation; for starts with an exactly-zero coordinate vs the
+            reference's own code object with its constant zdelt replaced by mystic's; all vs the Lean transcriptions
+            (Model/RefFmin.lean: refFmin and the staged mystic machine with its Step/Terminated loop; Model/NMInit.lean:
+            the initial-simplex rule and the convergence test as each program computes them).  Start points over the whole
+            float range (signed zeros, round-off zeros, 1e-8 +- 1 ulp, denormals, > 2**53, > 1e154, max/1.05), tolerances
+            and limits exactly on / one ulp (one count) either side of the values a run passes: harness/c08_nm.py.
   powell  - real fmin_powell vs the reference fmin_powell (same Brent); the direction-set bookkeeping replayed
             by the Lean model (Model/Powell.lean) with the recorded line searches as oracle.
 Monitors evaluate the property's own statement on what the real code returned, independently of the model."""
@@ -20,6 +25,7 @@ import common
 from common import case_rng, fl, fll, f2b, b2f, same_vec, same_float, parse_reply, dyadic, gfloat
 import dsl, framework, leandrv, solvergen
 import c08_brent as B
+import c08_nm as NMX
 from framework import Finding
 
 PID = "C08"
@@ -40,6 +46,11 @@ THEOREMS = [
     "MysticVerif.C08.nm_refines_ref",
     "MysticVerif.C08.nm_stops_before_simplex",
     "MysticVerif.C08.ref_fval_is_head",
+    "MysticVerif.C08.nm_initial_simplex_rule",
+    "MysticVerif.C08.nm_zdelt_only_for_exact_zero",
+    "MysticVerif.C08.nm_initial_simplex_rule_field",
+    "MysticVerif.C08.nm_refines_ref_concrete_init",
+    "MysticVerif.C08.nm_convergence_test_iff",
     "MysticVerif.C08.powell_refines_ref",
     "MysticVerif.C08.powell_first_iteration_gap",
     "MysticVerif.C08.powell_bigind_valid",
@@ -477,49 +488,10 @@ def derun_model_compare(run, reply):
 
 
 # ====================================================================================== Nelder-Mead
-ZDELT_REF = 0.00025
-RADIUS = 0.05
-ZDELT_MYSTIC = (RADIUS ** 2) * 0.1          # scipy_optimize.py l.137: one ulp above the reference's 0.00025
-
-
-def gen_nm_case(rng, tier):
-    dim = rng.randint(1, 4 if tier == "quick" else 8)
-    k = rng.random()
-    if k < 0.12:
-        e = ("sum",) + tuple(("abs", ("x", i)) for i in range(dim))            # symmetric: exact ties
-    elif k < 0.2:
-        e = ("sum",) + tuple(("sq", ("rint", ("x", i))) for i in range(dim))   # plateaus
-    else:
-        e = solvergen.gen_cost(rng, dim, allow_vector=False)[1]
-
-    def coord():
-        q = rng.random()
-        if q < 0.07:
-            return 0.0
-        if q < 0.4:
-            return dyadic(rng, -4, 4, 4) or 1.0
-        if q < 0.5:
-            return float(rng.randint(-3, 3)) or -1.0
-        return rng.uniform(-5, 5)
-    x0 = [coord() for _ in range(dim)]
-    xtol = rng.choice([1e-4, 1e-4, 1e-2, 1e-6, 1e-8, 0.5]); ftol = rng.choice([1e-4, 1e-4, 1e-2, 1e-6, 1e-10, 0.5])
-    maxiter = rng.choice([None] * 12 + [0, 1, 2, 3, 5, 10, 40]); maxfun = rng.choice([None] * 12 + [0, 1, 2, 3, dim + 1, dim + 2, 10, 50])
-    return {"dim": dim, "expr": e, "x0": x0, "xtol": xtol, "ftol": ftol, "maxiter": maxiter, "maxfun": maxfun}
-
-
-def run_fmin(which, c):
-    from mystic.solvers import fmin
-    from mystic import _scipy060optimize as REF
-    calls = []
-    e = c["expr"]
-
-    def cost(x):
-        xv = vec(x); y = dsl.ev(e, xv); calls.append((xv, y)); return y
-    fn = fmin if which == "mystic" else REF.fmin
-    x, f, it, fc, wf = fn(cost, list(c["x0"]), xtol=c["xtol"], ftol=c["ftol"], maxiter=c["maxiter"], maxfun=c["maxfun"],
-                          full_output=1, disp=0)
-    return {"x": vec(x), "f": float(f), "iter": int(it), "fcalls": int(fc), "warn": int(wf), "ncalls": len(calls),
-            "nan": any(y != y or abs(y) == math.inf for _, y in calls)}
+ZDELT_REF = NMX.ZDELT_REF
+RADIUS = NMX.RADIUS
+ZDELT_MYSTIC = NMX.ZDELT_MYSTIC             # scipy_optimize.py l.137: one ulp above the reference's 0.00025
+gen_nm_case = NMX.gen_nm_case              # start points / tolerances / limits over the whole float range: harness/c08_nm.py
 
 
 def fmin_request(which, c, zdelt):
@@ -540,45 +512,6 @@ def veq(a, b):
 
 def close(a, b, rel=1e-6, ab=1e-9):
     return feq(a, b) or abs(a - b) <= ab + rel * max(abs(a), abs(b))
-
-
-def nm_monitor(c, a, b, hist):
-    """real fmin (a) vs the reference (b): the property's statement"""
-    out = []
-    started = (c["maxfun"] is None or c["maxfun"] > 1) and (c["maxiter"] is None or c["maxiter"] > 0)
-    zero = any(v == 0.0 for v in c["x0"])
-    for nm, r in (("fmin", a), ("reference", b)):
-        if r["fcalls"] != r["ncalls"]:
-            out.append(("fmin/funcalls-miscounted/%s" % nm, "%s reports %d function calls, %d were made" % (nm, r["fcalls"], r["ncalls"])))
-    if a["nan"] or b["nan"]:
-        hadd(hist, "nm:nan-skipped"); return out, False
-    if not feq(a["f"], dsl.ev(c["expr"], a["x"]) + 0.0):
-        out.append(("fmin/fopt-not-cost-at-xopt", "fmin returned fopt=%r but cost(xopt)=%r" % (a["f"], dsl.ev(c["expr"], a["x"]))))
-    if not started:
-        hadd(hist, "nm:limit-edge(maxfun<=1|maxiter=0)")
-        if (a["iter"], a["fcalls"]) != (0, 1) or not veq(a["x"], c["x0"]):
-            out.append(("fmin/limit-edge", "with maxiter=%r maxfun=%r fmin made %d iterations / %d calls, x=%r" % (c["maxiter"], c["maxfun"], a["iter"], a["fcalls"], a["x"])))
-        return out, False
-    counts_a = (a["iter"], a["fcalls"], a["warn"]); counts_b = (b["iter"], b["fcalls"], b["warn"])
-    if not zero:
-        hadd(hist, "nm:exact-class")
-        if not (veq(a["x"], b["x"]) and feq(a["f"], b["f"]) and counts_a == counts_b):
-            out.append(("fmin/differs-from-reference", "fmin -> x=%r f=%r (iter, funcalls, warnflag)=%r ; reference -> x=%r f=%r %r"
-                        % (a["x"], a["f"], counts_a, b["x"], b["f"], counts_b)))
-    else:
-        hadd(hist, "nm:zero-coordinate-class(zdelt differs by one ulp)")
-        if counts_a != counts_b:
-            hadd(hist, "nm:zero-coordinate:counts-differ")
-        elif veq(a["x"], b["x"]):
-            hadd(hist, "nm:zero-coordinate:identical")
-        elif not (all(close(p, q) for p, q in zip(a["x"], b["x"])) and close(a["f"], b["f"])):
-            # the one-ulp difference of the initial simplex is amplified by long / ill-conditioned runs: not a defect; the exact
-            # statement for this class is the replay `mystic-vs-reference-transcription` (reference algorithm with mystic's constant)
-            hadd(hist, "nm:zero-coordinate:differs-beyond-1e-6")
-        else:
-            hadd(hist, "nm:zero-coordinate:equal-to-rounding")
-    hadd(hist, "nm:stop:%s" % {0: "converged", 1: "maxfun", 2: "maxiter"}[b["warn"]])
-    return out, b["iter"] >= 3
 
 
 def fmin_compare(tag, real, reply, hist):
@@ -609,6 +542,8 @@ def nm_steps_case(rng, tier):
     """the real NelderMeadSimplexSolver stepped explicitly; replayed per step by the shared `nm` model command"""
     import trace, solvermodel
     c = gen_nm_case(rng, tier)
+    while c["flavour"] not in ("ordinary", "tiny"):       # the per-step replay compares energies through the Lean sort: finite energies only
+        c = gen_nm_case(rng, tier)
     n = rng.randint(3, 14 if tier == "quick" else 60)
     spec = {"solver": "NM", "dim": c["dim"], "x0": c["x0"], "cost": ("scalar", c["expr"]), "termination": ("never",),
             "limits": (10 ** 6, 10 ** 7), "ops": [("step",)] * n, "flavour": "steps"}
@@ -688,6 +623,14 @@ def gen_powell_case(rng, tier):
     else:
         e = solvergen.gen_cost(rng, dim, allow_vector=False)[1]
         x0 = [rng.choice([0.0, 1.0, -2.5, rng.uniform(-4, 4), dyadic(rng, -4, 4, 4)]) for _ in range(dim)]
+        if rng.random() < 0.2:
+            # start coordinates outside the O(1) range: signed zeros, round-off "zeros", denormals, and magnitudes at which
+            # a unit step is below one ulp (the line searches then move - or fail to move - by rounding alone)
+            for i in range(dim):
+                if rng.random() < 0.6:
+                    x0[i] = rng.choice([-0.0, NMX.tiny_coord(rng), NMX.tiny_coord(rng), NMX.huge_coord(rng)])
+            if rng.random() < 0.5:
+                e = NMX.scaled_cost(rng, x0)
     xtol = rng.choice([1e-4, 1e-4, 1e-2, 1e-6]); ftol = rng.choice([1e-4, 1e-4, 1e-2, 1e-6, 1e-10])
     maxiter = rng.choice([None] * 10 + [0, 1, 2, 3, 5]); maxfun = rng.choice([None] * 10 + [0, 1, 5, 20, 60, 100])
     direc = None
@@ -1031,22 +974,28 @@ def run_shard(pid, seed, shard, ncases, tier, extra):
         lines.append(derun_model_request(run)); handlers.append(("derun", run, case))
         if len(samples) < 2:
             samples.append({"spec": run["spec"], "final": run["gens"][-1]["after"], "first_call": run["calls"][0] if run["calls"] else None})
-    # ---------------- Nelder-Mead: fmin vs reference vs Lean
+    # ---------------- Nelder-Mead: fmin / the solver class vs reference (vs reference with mystic's zdelt) vs Lean
     for k in range(ncases * 3):
         if only and only != ("nm", k):
             continue
         rng = case_rng(PID + "/nm", seed, shard, k)
         c = gen_nm_case(rng, tier)
-        case = dict(ident("nm", k)); case.update({"x0": c["x0"], "cost": dsl.expr_sexp(c["expr"]), "xtol": c["xtol"], "ftol": c["ftol"],
-                                                  "maxiter": c["maxiter"], "maxfun": c["maxfun"]})
+        route = "solver" if rng.random() < 0.3 else "fmin"
+        case = dict(ident("nm", k)); case.update({"x0": c["x0"], "x0_given_as": c["x0kind"], "cost": dsl.expr_sexp(c["expr"]), "xtol": c["xtol"], "ftol": c["ftol"],
+                                                  "maxiter": c["maxiter"], "maxfun": c["maxfun"], "route": route, "flavour": c["flavour"],
+                                                  "boundary": c["boundary"]})
+        zero = any(v == 0.0 for v in c["x0"])
         try:
-            a = run_fmin("mystic", c); b = run_fmin("ref", c)
+            a = NMX.run_nm(route, c); b = NMX.run_nm("ref", c)
+            bz = NMX.run_nm("refz", c) if (zero and NMX.ref_with_zdelt(ZDELT_MYSTIC) is not None) else None
         except Exception as exc:
-            findings.append(Finding("monitor", "fmin/raises/%s" % type(exc).__name__, "fmin raised %r" % (exc,), case))
+            findings.append(Finding("monitor", "fmin/raises/%s" % type(exc).__name__, "%s raised %r" % (route, exc), case))
             continue
         evals += 1
-        case["fmin"] = a; case["reference"] = b
-        res, nt = nm_monitor(c, a, b, hist)
+        case[route] = NMX.public(a); case["reference"] = NMX.public(b)
+        res, nt = NMX.nm_monitor(c, route, a, b, bz, hist)
+        if NMX.started(c):
+            NMX.tie_census(c, b, hist)
         for key, what in res:
             findings.append(Finding("monitor", key, what, case))
         if nt:
@@ -1054,9 +1003,10 @@ def run_shard(pid, seed, shard, ncases, tier, extra):
         if a["nan"] or b["nan"]:
             continue
         lines.append(fmin_request("ref", c, ZDELT_REF)); handlers.append(("fmin", ("ref-vs-transcription", b), case))
+        if route == "fmin" and not c["xtol"]:
+            continue                # `if xtol:` installs another stop rule (known finding N1): the model is of the CRT loop
         lines.append(fmin_request("mystic", c, ZDELT_REF)); handlers.append(("fmin", ("mystic-vs-model", a), case))
-        started = (c["maxfun"] is None or c["maxfun"] > 1) and (c["maxiter"] is None or c["maxiter"] > 0)
-        if started:
+        if NMX.started(c):
             # the reference algorithm run with mystic's initial-simplex constant must reproduce the real fmin exactly
             lines.append(fmin_request("ref", c, ZDELT_MYSTIC)); handlers.append(("fmin", ("mystic-vs-reference-transcription", a), case))
         if len(samples) < 3 and nt:
@@ -1084,6 +1034,8 @@ def run_shard(pid, seed, shard, ncases, tier, extra):
         case = dict(ident("powell", k)); case.update({"x0": c["x0"], "cost": dsl.expr_sexp(c["expr"]), "xtol": c["xtol"], "ftol": c["ftol"],
                                                       "maxiter": c["maxiter"], "maxfun": c["maxfun"], "direc": c["direc"], "imax": c.get("imax")})
         hadd(hist, "powell:imax:%s" % ("default" if c.get("imax") is None else c["imax"]))
+        for v in c["x0"]:
+            hadd(hist, "powell:x0-coordinate:%s" % NMX.coord_class(v))
         try:
             a = run_powell("mystic", c); b = run_powell("ref", c)
         except Exception as exc:
@@ -1246,6 +1198,17 @@ def witnesses():
     res, _ = powell_monitor(c, a, b, hist)
     for key, what in res:
         out.append(Finding("monitor", key, what, case))
+    # known finding N1: fmin(xtol=0.0) installs another stop rule (the recorded witness, on both routes)
+    c = {"dim": 2, "expr": c["expr"], "x0": [0.8, 1.2], "xtol": 0.0, "ftol": 1e-4, "maxiter": None, "maxfun": None,
+         "flavour": "ordinary", "x0kind": "list", "boundary": None}
+    b = NMX.run_nm("ref", c)
+    for route in ("fmin", "solver"):
+        a = NMX.run_nm(route, c)
+        case = {"stream": "witness", "x0": c["x0"], "cost": dsl.expr_sexp(c["expr"]), "xtol": 0.0, "ftol": 1e-4, "route": route,
+                route: NMX.public(a), "reference": NMX.public(b)}
+        res, _ = NMX.nm_monitor(c, route, a, b, None, hist)
+        for key, what in res:
+            out.append(Finding("monitor", key, what, case))
     return out
 
 
@@ -1262,8 +1225,14 @@ def main(tier, seed):
     rule = ("per shard unit: 6 isolated calls of a mystic.strategy function on a real solver object (10 strategies x DE1 list / DE2 per-candidate "
             "trial layout; nDim 1-12, NP down to ncand+1, int/dyadic/float/duplicated populations, F and CR incl. 0 and 1; draws from a recording "
             "generator with boundary values u == CR, one ulp either side, n = 0, n = nDim-1) + 1 real DE/DE2 run of 2-%d generations "
-            "(plateau / symmetric / smooth costs; every strategy call inside it recorded) + 3 fmin cases (real fmin vs reference fmin vs Lean; dim 1-%d, "
-            "smooth / abs / ill-conditioned / rosenbrock costs, zero coordinates, xtol/ftol 0.5..1e-10, limits incl. 0,1,N+1) + 0.5 stepped "
+            "(plateau / symmetric / smooth costs; every strategy call inside it recorded) + 3 Nelder-Mead cases (70%% one-liner fmin, 30%% NelderMeadSimplexSolver "
+            "with CandidateRelativeTolerance; vs reference fmin evaluation for evaluation, vs the reference code object with mystic's zdelt when x0 has an exact "
+            "zero, vs Lean; dim 1-%d; smooth / abs / ill-conditioned / rosenbrock / plateau / staircase costs and costs scaled to the start point; start "
+            "coordinates: 50%% ordinary, 25%% tiny (+-0.0, round-off zeros like 0.1+0.2-0.3, 1e-8/1e-5/sqrt(eps)/eps one ulp either side, 1e-3..1e-307, "
+            "smallest normal, denormals), 10%% huge (1e3..1e22, 2**53 +- ulp, 1e154, max/1.05 +- ulp, max), 15%% mixed; x0 given as list / tuple / ndarray / ints; "
+            "xtol/ftol 0.5..1e-10, at the coordinates' scale, 0, denormal, 1e300, inf; 14%% boundary cases: xtol / ftol EXACTLY the value the convergence test "
+            "compares at some iteration of that run (and one ulp either side), maxfun / maxiter exactly the counts after some iteration (and +-1); limits incl. "
+            "0,1,N+1) + 0.5 stepped "
             "NelderMeadSimplexSolver runs (per-step replay, branch histogram) + 3 fmin_powell cases (real vs reference with recorded Brent searches vs "
             "Lean bookkeeping model AND vs the whole run recomputed from x0 with the modelled Brent; dim 1-%d, custom direction sets, guess at the optimum, "
             "constant objective, plateau / exchange-symmetric / small-integer landscapes for the exact-equality branches) + 2 bracket + 4 brent cases on generated "
@@ -1284,10 +1253,14 @@ def main(tier, seed):
           "`powellb` replays)",
           "refFmin / refPowell are transcriptions of mystic/_scipy060optimize.py, tied to that file by the same replays (reference run vs transcription)",
           "DSL twins harness/dsl.py and Model/Dsl.lean for the cost functions"]
-    assumptions = ["costs never return NaN/inf in the fmin / fmin_powell streams (such runs are skipped and counted); the bracket / brent / _linesearch_powell streams include NaN and inf values "
-                   "(order monitors apply to NaN-free runs; the bit-exact replay applies to all)",
+    assumptions = ["fmin_powell runs whose cost returns NaN/inf are skipped and counted; Nelder-Mead runs with inf / NaN energies (huge starts) ARE compared real fmin vs real reference, "
+                   "evaluation for evaluation, and their initial simplex is judged, but they are not sent to the Lean model; the bracket / brent / _linesearch_powell streams include NaN and inf "
+                   "values (order monitors apply to NaN-free runs; the bit-exact replay applies to all)",
                    "unconstrained, unbounded, unpenalised problems (the property's hypothesis); limits maxfun > 1 and maxiter > 0 for the equality with the "
-                   "reference (below that mystic stops before building the simplex / before the first sweep: checked against the model, counted as limit-edge)",
+                   "reference (below that mystic stops before building the simplex / before the first sweep: checked against the model, counted as limit-edge); the same edge "
+                   "exists for ftol = inf with the guess within xtol of the origin (the convergence test holds on the generation-0 population: nm_start_iff), counted separately",
+                   "starts with an exactly-zero coordinate: mystic's zdelt 0.05**2*0.1 is one ulp above the reference's 0.00025; the exact statement checked there is "
+                   "'real fmin = the reference's code object with that one constant replaced' (how far the ulp carries is measured: nm:zero-coordinate:*)",
                    "runs in which two vertices carry exactly equal energies are compared real-vs-real only (numpy.argsort's order among ties is unspecified)",
                    "IEEE binary64 + - * / and comparisons agree between Lean Float and numpy/CPython"]
     return framework.finish(PID, tier, seed, t0, proof, run, rule, tb, assumptions, search_more=search_more)
